@@ -28,13 +28,20 @@ import (
 var Check = &ev.Check{
 	ID:    "C10",
 	Level: "model_checking",
-	Rule: "programs: (B) every valid program of C07's systematic family (reference graphs of <=3 definitions over {typedef, struct, enum, const, service} in 7 include layouts; quick: <=2 definitions) under default options, and (A) a collision family of multi-file programs built so that order can matter (k<=4 includes with equal base names in different directories, unreferenced includes, types whose helper names collide across files, " +
+	Rule: "programs: (B) every valid program of C07's systematic family (reference graphs of <=3 definitions over {typedef, struct, enum, const, service} in 7 include layouts; quick: <=2 definitions, plus the 3-definition programs of the 3/4-file layouts in which a non-root file refers to a constant or enum item of another file) under default options, and (A) a collision family of multi-file programs built so that order can matter (k<=4 includes with equal base names in different directories, unreferenced includes, types whose helper names collide across files, " +
 		"files named like imported runtime packages (fmt, wire, strings), constants of map/set/struct/list type, 5 services with inheritance across files, enums/unions/exceptions/typedef chains) x option sets {default, NoZap, EnumTextMarshalStrict, OutputFile, NoRecurse, NoEmbedIDL}. " +
 		"schedules: every map-iteration order (all n! for n<=4 keys; {reverse, rotations, adjacent transpositions} beyond) at every range-over-map execution in compile, gen, internal/plugin and plugin with at most 1 deviating execution (thorough: 2 on the small programs). " +
 		"A state is a node of the choice tree, a transition one order choice; every execution is a real compile+generate into a scratch directory with an in-process ServiceGenerator capturing the plugin request. " +
 		"Oracle: identical success/failure, identical path->sha256 map of the output tree, identical plugin request after renumbering ids by (thrift path, service name). distinct_nontrivial = (program, options) pairs whose exploration had at least 2 executions.",
-	Run:     run,
-	Finish:  finish,
+	Run:    run,
+	Finish: finish,
+	Cleanup: func(*ev.S) {
+		if ds, _ := filepath.Glob(fmt.Sprintf("/dev/shm/verif-C10-%d-*", os.Getpid())); len(ds) > 0 {
+			for _, d := range ds {
+				os.RemoveAll(d)
+			}
+		}
+	},
 	Workers: func(string) int { return 16 },
 	Budget: func(t string) time.Duration {
 		return map[string]time.Duration{"quick": 4 * time.Minute, "thorough": 25 * time.Minute}[t]
@@ -305,8 +312,29 @@ func diffLines(a, b string) string {
 	return strings.Join(d, "; ")
 }
 
+// crossModuleConst selects the three-definition programs of the three- and four-file
+// layouts in which a definition outside the root file refers to a constant or an
+// enum item of yet another file (the value is linked through a sibling module).
+func crossModuleConst(p *resolve.Prog, layout string) bool {
+	if layout != "siblings" && layout != "chain3" && layout != "diamond" {
+		return false
+	}
+	for _, d := range p.Defs {
+		if d.File != 0 && (d.Val.Kind == "const" || d.Val.Kind == "item") && p.Defs[d.Val.Def].File != d.File {
+			return true
+		}
+	}
+	return false
+}
+
 func run(w *ev.W) {
-	out, err := os.MkdirTemp(w.WorkDir, "c10out")
+	// generated output goes to memory-backed scratch space when there is one
+	// (thousands of small generations; removed by the worker, and by the
+	// supervisor's Cleanup if a worker dies)
+	out, err := os.MkdirTemp("/dev/shm", fmt.Sprintf("verif-C10-%d-", os.Getppid()))
+	if err != nil {
+		out, err = os.MkdirTemp(w.WorkDir, "c10out")
+	}
 	if err != nil {
 		w.Note(err.Error())
 		return
@@ -408,8 +436,8 @@ func run(w *ev.W) {
 		if len(w.R.Caps) > 0 || !w.Own() {
 			return
 		}
-		if w.Quick() && len(rp.Defs) == 3 {
-			return // quick: at most two definitions
+		if w.Quick() && len(rp.Defs) == 3 && !crossModuleConst(&rp, layout) {
+			return // quick: three definitions only where a non-root file refers to a constant or enum item of another file
 		}
 		if !rp.Resolve().Valid {
 			return
